@@ -193,6 +193,36 @@ static void run_case(const Geom &g, const Opt &o, bool emit, int big_threshold) 
     }
     out.b("cleared_same", cleared_same);
   }
+  {  // (a) two copies of the stream back to back in ONE DecoderBuffer: type query + decode, twice -- the second stream is read from where the first ended,
+     // both decode to the geometry of the single stream and the buffer ends up empty.  (b) the stream cut short (by 1, 2, 5 bytes, in the middle) and decoded
+     // from two allocations that differ only in what lies BEHIND the declared size: the outcome is a function of (data, size) alone.
+    bool chain_ok = true, trunc_same = true;
+    if (e1.ok && d1.ok) {
+      std::vector<char> cat(e1.bytes);
+      cat.insert(cat.end(), e1.bytes.begin(), e1.bytes.end());
+      DecoderBuffer db; db.Init(cat.data(), cat.size());
+      Decoder dc;
+      const uint64_t want = geom_digest(*d1.pc, d1.is_mesh);
+      for (int k = 0; k < 2 && chain_ok; ++k) {
+        auto t = Decoder::GetEncodedGeometryType(&db);
+        if (!t.ok() || (t.value() == TRIANGULAR_MESH) != d1.is_mesh) { chain_ok = false; break; }
+        uint64_t h = 5;
+        if (d1.is_mesh) { Mesh m; if (dc.DecodeBufferToGeometry(&db, &m).ok()) h = geom_digest(m, true); }
+        else { PointCloud pc; if (dc.DecodeBufferToGeometry(&db, &pc).ok()) h = geom_digest(pc, false); }
+        chain_ok = h == want;
+      }
+      chain_ok = chain_ok && db.remaining_size() == 0;
+      const long L = (long)e1.bytes.size();
+      for (long cut : {L - 1, L - 2, L - 5, L / 2}) {
+        if (cut < 1) continue;
+        std::vector<char> a(e1.bytes.begin(), e1.bytes.begin() + cut), b(a);
+        a.insert(a.end(), 64, (char)0x00); b.insert(b.end(), 64, (char)0xFF);
+        Decoded da = decode(a.data(), (size_t)cut), dbb = decode(b.data(), (size_t)cut);
+        if (da.ok != dbb.ok || (da.ok && geom_digest(*da.pc, da.is_mesh) != geom_digest(*dbb.pc, dbb.is_mesh))) trunc_same = false;
+      }
+    }
+    out.b("chain_ok", chain_ok).b("trunc_same", trunc_same);
+  }
   out.b("skipok", ds.ok).raw("sv2", ds.ok ? struct_json(*ds.pc, ds.is_mesh) : "{\"np\":0,\"nf\":0,\"maxface\":-1,\"atts\":[]}");
 
   // ---- projection of input and output (C01)
@@ -582,7 +612,7 @@ static int run_streams(const char *dir) {
           .i("sub", -1).i("es", -1).i("ds", -1).b("builtin", true).i("split", 0).i("pred", -100).arr("qbits", std::vector<int>{}).b("expert", false)
           .b("eok", true).s("err", "").i("bytes", (long long)bytes.size()).i("ver", ver).arr("skip_types", st).b("big", true)
           .b("dok", d1.ok).s("derr", d1.err).i("dp", d1.ok ? d1.pc->num_points() : -1).i("df", d1.ok && d1.is_mesh ? d1.mesh()->num_faces() : (d1.ok ? 0 : -1))
-          .b("skipok", ds.ok).b("cleared_same", cleared_same)
+          .b("skipok", ds.ok).b("cleared_same", cleared_same).b("chain_ok", true).b("trunc_same", true)
           .raw("skip", sv.sk).i("skip_missing", sv.skip_missing).b("skip_rest_same", sv.rest_same).s("skip_rest_why", sv.rest_why).end();
     }
   }
